@@ -333,8 +333,12 @@ int (*div_array[])(void *, number, int) = { idiv, ddiv, zdiv };
 static int mtx_irem(void *dest, number a, int n) {
   if (a.i==0) PY_ERR_INT(PyExc_ZeroDivisionError, "division by zero");
   int i;
-  for (i=0; i<n; i++)
-    ((int_t *)dest)[i] %= a.i;
+  for (i=0; i<n; i++) {
+    if (a.i == -1)   /* x % -1 traps for the most negative x */
+      ((int_t *)dest)[i] = 0;
+    else
+      ((int_t *)dest)[i] %= a.i;
+  }
 
   return 0;
 }
